@@ -51,6 +51,26 @@ CHECKS = {
    technique="runtime monitoring under schedule exploration: deterministic executor with seeded adversarial schedulers (random, PCT, starvation, lazy/eager delivery), bounded channels, exact deadlock detection, outstanding-operation guards",
    text="Honest executions under seeded schedulers x capacities 1, 2, unbounded x n=2..4 x every evaluator; every party must end Ok with the clear-text value, the run must never be stuck (no runnable task, no deliverable message) and no (party, peer) may have two sends or two receives outstanding. Evidence counts distinct schedule and interleaving hashes.",
    note="Schedules are sampled, not enumerated; channels that reorder within a pair are outside the property."),
+ "C13": dict(level="exploration", ref="DESIGN.md §3 C13", engine="pv-server",
+   technique="runtime monitoring under schedule exploration: real PolicyState actors behind a gated in-process PolicyClient, DFS over coordination-RPC delivery orders by stateless re-execution plus random orders, end-state oracle at exact quiescence",
+   text="For every program of the library (constants from none/some/all parties), leader and output-destination mask the explorer enumerates schedule-arrival and coordination-delivery orders depth first (complete for n=2 within the budget, bounded for n=3) and samples random orders that interleave MPC messages. At quiescence every schedule returned Ok, each destination got exactly one result equal to the native reference, every actor stopped without panic and all permits are back.",
+   note="Quiescence is exact (paused clock + no pending delivery + no extra OS thread). DFS does not branch on MPC message deliveries; n=3 is not exhausted in quick."),
+ "C14": dict(level="fault_enumeration", ref="DESIGN.md §3 C14", engine="pv-server",
+   technique="runtime monitoring with command injection at every idle point of a gated run; replies, actor JoinHandle and outcome of the computation observed",
+   text="At every (quick: every k-th) idle point of a normal 2-/3-party run one stray command is injected at each party (duplicate schedule, run, consts, validate, mpc_msg with out-of-range sender, mpc_msg before scheduling). Commands that are invalid in every state the actor can be in (decided from the RPC history) must be answered Err; no actor may panic; the computation must still satisfy the C13 oracle.",
+   note="Commands whose validity is ambiguous at the injection point are judged for 'no panic' only. The HTTP layer is not driven."),
+ "C15": dict(level="fault_enumeration", ref="DESIGN.md §3 C15", engine="pv-server",
+   technique="runtime monitoring with cancel injection after every event (incl. while the compile thread is alive); ordering of cancel() completion vs output() calls, actor state and permits at quiescence",
+   text="cancel() is injected at every idle point on each party with gated and ungated MPC messages, and while the compile thread of a heavier program is alive. If it returned Ok: the actor has stopped, a scheduled party with a destination got exactly one notification (Cancelled or the real result), none after cancel returned, and the party's permit is back.",
+   note="Current-thread runtime with paused clock (exact); a multi-thread stress mode was not built. cancel() returning Err is outside the property and only counted."),
+ "C16": dict(level="exploration", ref="DESIGN.md §3 C16", engine="pv-server",
+   technique="runtime monitoring: incompatible policies driven through scripted and random arrival/delivery orders; schedule results, outputs and msg() call counter observed",
+   text="Program or leader mismatch at each single follower and ill-typed programs at each party, n in {2,3}, every leader, validate before and after the follower's schedule: the schedule calls of that follower and of the leader end with an error, no Ok result is delivered anywhere and the client's msg() counter stays 0.",
+   note="Two self-declared leaders are out of scope as stated in the property."),
+ "C17": dict(level="fault_enumeration", ref="DESIGN.md §3 C17", engine="pv-server",
+   technique="runtime monitoring with RPC fault injection: batches of policies under random delivery orders, one failed validate/run/consts RPC, cancels; overlap of leader run intervals from RPC-level observations, permits and actor state at quiescence",
+   text="Batches of 1..8 policies with concurrency 1..3, mixed leaders and destinations; one RPC failure and/or a cancel is injected. Per leader the overlap of [first run RPC issued .. last activity] never exceeds the concurrency; after a failed call the caller's actor has stopped with exactly one error notification (or a failed schedule for validate); when all of a party's policies have ended its whole budget is available.",
+   note="Peers of a failed or cancelled policy that keep waiting have not 'ended' and are outside the property; they are visible in the evidence."),
  "C18": dict(level="exploration", ref="DESIGN.md §3 C18",
    technique="runtime monitoring: counting channel (operations attempted before return) and panic capture on an enumerated list of invalid arguments",
    text="Every documented-invalid value of each mpc argument and circuit descriptions whose counters disagree with their instructions, used by one party or all parties, n in {2,3}: the call must return Err with 0 channel operations and never panic; a repeated output index must be rejected like that or behave as the de-duplicated set; inconsistent counters must only never panic.",
